@@ -227,6 +227,14 @@ func NewSchemaComponent(name string, schema Schema, cs Componenter, cfg Config) 
 		IsRenderFormatMethod: isFormatter,
 	}
 
+	if schema.Ref != nil {
+		// a component that is only a $ref to a struct, array or oneOf component must keep its JSON methods
+		switch schema.Base().Type.(type) {
+		case StructureType, SliceType, OneOfStructure:
+			sc.IsAlias = true
+		}
+	}
+
 	switch schema := schema.Type.(type) {
 	case RawBytesType:
 		sc.IsAlias = true
